@@ -106,6 +106,22 @@ let dispatch (op : string) (t : toks) : string =
       let comment = get_bytes t in
       out_bytes (posrep_body { pr_date = date; pr_lat = lat; pr_lon = lon; pr_speed = speed;
                                pr_course = course; pr_comment = comment })
+  | "parseurl" ->
+      let scheme = get_bytes t in let host = get_bytes t in let path = get_bytes t in
+      let hp = get_bytes t in
+      let show u = String.concat " " [out_bytes u.u_scheme; out_bytes u.u_host;
+                                      out_bytes u.u_target; out_list out_bytes u.u_digis] in
+      (match parse_url { pu_scheme = scheme; pu_host = host; pu_path = path; pu_host_param = hp } with
+       | UrlOk u -> "ok " ^ show u
+       | UrlInvalidTarget -> "invalid_target"
+       | UrlDigisUnsupported u -> "digis_unsupported " ^ show u)
+  | "regrun" ->
+      let ops = get_list t (fun t -> match next t with
+        | "r" -> let s = get_bytes t in let d = get_int t in Register (s, n_of_int d)
+        | "u" -> Unregister (get_bytes t)
+        | "d" -> Dial (get_bytes t)
+        | s -> raise (Bad ("reg op " ^ s))) in
+      out_list (out_option (fun d -> out_int (int_of_n d))) (reg_run [] ops)
   | _ -> raise Not_found
 
 let () =
